@@ -2,6 +2,7 @@ package c20
 
 import (
 	"fmt"
+	"github.com/pion/interceptor/vsched"
 	"time"
 
 	"github.com/pion/interceptor/internal/ntp"
@@ -203,6 +204,7 @@ func ntpJob(a anchor, w int64, deadline time.Time, s *nstats, cur *progress) str
 	lo, hi := a.window(w)
 	var prev uint64
 	var refs [6]int64
+	havePrev, prevNS, prevRef := false, int64(0), int64(0)
 	for ns := lo; ns < hi; ns++ {
 		if ns&0xFFFF == 0 && !deadline.IsZero() && time.Now().After(deadline) {
 			return fmt.Sprintf("deadline reached; instants [%d,%d) fully covered", lo, ns)
@@ -223,11 +225,14 @@ func ntpJob(a anchor, w int64, deadline time.Time, s *nstats, cur *progress) str
 		for i := 0; i < k; i++ {
 			d, key, msg := check32(ns, refs[i])
 			if key != "" {
-				s.violation(key, msg, replay{Kind: "ntp32", NS: ns, Ref: refs[i]})
+				s.violation(key, msg, replay{Kind: "ntp32", NS: ns, Ref: refs[i], HavePrev: havePrev, PrevNS: prevNS, PrevRef: prevRef})
 			} else if abs(d) > s.max32 {
 				s.max32 = abs(d)
 			}
+			havePrev, prevNS, prevRef = true, ns, refs[i]
 		}
+		// the conversions are pure functions: the step budget is per instant, not per sweep
+		vsched.StepBudget(100000)
 		s.calls += 3 + 2*int64(k)
 		s.cases += 2 + int64(k)
 		s.instants++
